@@ -66,6 +66,12 @@ def run(run):
     if not H.build(run):
         return
     eq_stats, eq_samples = check_equal(run)
+    try:  # extraction re-validation of the Equal differential (checks/vm_http.py, branch misc-3), once it is merged
+        from . import vm_http
+    except ImportError:
+        vm_http = None
+    if vm_http is not None:
+        vm_http.crosscheck_equal(run)
     res = H.run_hist(run, "C13")
     for p in res["props"]:
         if p["ok"] or not p["prop"].startswith("c13-"):
